@@ -6,6 +6,9 @@ namespace {
 
 const int NIMG = 3;
 
+// image names: each one is a proper prefix of the next, so a name lookup that compares a prefix only selects the wrong image
+static std::string iname(int i) { return "img" + std::string("abcdefghijklmnop").substr(0, (size_t)(i % 16)); }
+
 struct PT {
     int32 code;
     int   size;
@@ -233,7 +236,7 @@ struct Raster : Profile {
         MImg &m = s.im[i];
         if (m.ri != FAIL)
             return m.ri;
-        int32 ix = GRnametoindex(s.gr, strf("img%d", i).c_str());
+        int32 ix = GRnametoindex(s.gr, iname(i).c_str());
         if (ix == FAIL)
             s.ctx.fail("lookup-failed", "lookup-failed", strf("GRnametoindex(img%d) failed for an existing image", i));
         m.ri = GRselect(s.gr, ix);
@@ -255,7 +258,7 @@ struct Raster : Profile {
         if (std::string(when) == "after reopen")
             m.il = (int)il;
         if (nc != m.nc || (nt & 0xfff) != PTS[m.nt].code || il != m.il || dims[0] != m.w || dims[1] != m.h ||
-            strcmp(nm, strf("img%d", i).c_str()) != 0)
+            strcmp(nm, iname(i).c_str()) != 0)
             s.ctx.fail("info-mismatch", "info-mismatch",
                        strf("GRgetiminfo(img%d) (%s): name %s ncomp %d type %d il %d dims %dx%d; model ncomp %d type %d il %d dims %dx%d", i,
                             when, nm, (int)nc, (int)nt, (int)il, (int)dims[0], (int)dims[1], m.nc, (int)PTS[m.nt].code, m.il, m.w, m.h));
@@ -463,7 +466,7 @@ struct Raster : Profile {
                     m.nt     = modn(o.arg(4), NPT);
                     m.il     = modn(o.arg(5), 3);
                     int32 dims[2] = {m.w, m.h};
-                    int32 ri = GRcreate(s.gr, strf("img%d", di).c_str(), m.nc, PTS[m.nt].code, m.il, dims);
+                    int32 ri = GRcreate(s.gr, iname(di).c_str(), m.nc, PTS[m.nt].code, m.il, dims);
                     if (ri == FAIL)
                         ctx.fail("create-refused", "create-refused",
                                  strf("GRcreate(%dx%d, %d comps, type %d, il %d) failed: %s", m.w, m.h, m.nc, (int)PTS[m.nt].code, m.il,
